@@ -431,3 +431,361 @@ theorem readDuration_render (s : MmlState) (hs : Sane s) (d : Dur) (tail : List 
     simpa [durVal] using this
 
 end Ctrmml.Mml
+
+namespace Ctrmml.Mml
+open Ctrmml.Tables Ctrmml.Lexer Ctrmml.TrackBuilder
+open Ctrmml.MmlMeaning (Num Dur Acc Cmd Simple dotsBytes)
+
+/-! ### command dispatch -/
+
+theorem getTokenC_cons (s : MmlState) (c : Nat) (r : List Nat) (h : suffix s = c :: r) (hc : 33 ≤ c ∧ c < 128) :
+    getTokenC s = .ok (c : Int) (adv s 1) := by
+  rw [getTokenC_eq, h]
+  have : LineBuffer.countBlanks (c :: r) = 0 := by simp [LineBuffer.countBlanks, not_blank_of_range c hc]
+  rw [this, adv_zero, getC_cons s c r h, schar_small c hc.2]
+
+theorem trackOp_ok (s : MmlState) (op : Track.Op) (t' : Track) (rep : String)
+    (h : (getTrack s).applyOp op = .ok (t', rep)) : trackOp op s = .ok () (setTrack s t') := by
+  simp [trackOp, h]
+
+theorem rest_span (s : MmlState) (hs : Sane s) (d : Dur) (tail : List Nat)
+    (hsuf : suffix s = 114 :: (d.bytes ++ tail)) (hn : DurNums (getTrack s) d) (ht : DurTail d tail) :
+    mmlBasic s = .ok false
+      (adv (setTrack s ((getTrack s).addRest (UInt16.ofNat (durVal (getTrack s) d).toNat))) (1 + d.bytes.length + durSkip d tail)) := by
+  have hs1 : Sane (adv s 1) := sane_adv s hs 1 (by rw [hsuf]; simp)
+  have hsuf1 : suffix (adv s 1) = d.bytes ++ tail := by rw [suffix_adv, hsuf]; rfl
+  unfold mmlBasic
+  rw [bind_ok (getTokenC_cons s 114 _ hsuf (by omega))]
+  have e : ((114 : Nat) : Int) = 114 := rfl
+  rw [e]
+  simp (config := { decide := true }) only [if_false, if_true]
+  rw [bind_ok (readDuration_render (adv s 1) hs1 d tail hsuf1 hn ht)]
+  rw [bind_ok (trackOp_ok _ _ _ "" rfl), run_pure]
+  simp only [getTrack_adv, setTrack_adv, adv_adv, Nat.add_assoc]
+
+end Ctrmml.Mml
+
+namespace Ctrmml.Mml
+open Ctrmml.Tables Ctrmml.Lexer Ctrmml.TrackBuilder
+open Ctrmml.MmlMeaning (Num Dur Acc Cmd Simple dotsBytes)
+
+/-- literal command character: rewrite the cast and decide the `if` chain -/
+macro "dispatch " c:num : tactic =>
+  `(tactic| (have e : (($c : Nat) : Int) = $c := rfl
+             rw [e]
+             simp (config := { decide := true }) only [if_false, if_true]))
+
+/-- final-state normalisation -/
+macro "finish" : tactic => `(tactic| simp only [getTrack_adv, setTrack_adv, adv_adv, Nat.add_assoc])
+
+theorem expectParameter_render (s : MmlState) (hs : Sane s) (n : Num) (tail : List Nat)
+    (hsuf : suffix s = n.bytes ++ tail) (hr : NumRange n) (hend : NumEnd (numBase n) tail) :
+    expectParameter s = .ok n.v (adv s n.bytes.length) := by
+  unfold expectParameter
+  rw [bind_ok (getNumC_spec s hs), hsuf, numSpan_render n tail hr.1 hr.2 hend]
+  rfl
+
+theorem readParameter_render (s : MmlState) (hs : Sane s) (dflt : Int) (n : Num) (tail : List Nat)
+    (hsuf : suffix s = n.bytes ++ tail) (hr : NumRange n) (hend : NumEnd (numBase n) tail) :
+    readParameter dflt s = .ok n.v (adv s n.bytes.length) := by
+  unfold readParameter
+  rw [bind_ok (getNumC_spec s hs), hsuf, numSpan_render n tail hr.1 hr.2 hend]
+  rfl
+
+theorem readParameter_absent (s : MmlState) (hs : Sane s) (dflt : Int) (h : (numSpan (suffix s)).1 = none) :
+    readParameter dflt s = .ok dflt (adv s (numSpan (suffix s)).2) := by
+  unfold readParameter
+  rw [bind_ok (getNumC_spec s hs), h]
+  rfl
+
+theorem tie_span (s : MmlState) (hs : Sane s) (d : Dur) (tail : List Nat)
+    (hsuf : suffix s = 94 :: (d.bytes ++ tail)) (hn : DurNums (getTrack s) d) (ht : DurTail d tail) :
+    mmlBasic s = .ok false
+      (adv (setTrack s ((getTrack s).addTie (UInt16.ofNat (durVal (getTrack s) d).toNat))) (1 + d.bytes.length + durSkip d tail)) := by
+  have hs1 : Sane (adv s 1) := sane_adv s hs 1 (by rw [hsuf]; simp)
+  have hsuf1 : suffix (adv s 1) = d.bytes ++ tail := by rw [suffix_adv, hsuf]; rfl
+  unfold mmlBasic
+  rw [bind_ok (getTokenC_cons s 94 _ hsuf (by omega))]
+  dispatch 94
+  rw [bind_ok (readDuration_render (adv s 1) hs1 d tail hsuf1 hn ht)]
+  rw [bind_ok (trackOp_ok _ _ _ "" rfl), run_pure]
+  finish
+
+theorem length_span (s : MmlState) (hs : Sane s) (d : Dur) (tail : List Nat)
+    (hsuf : suffix s = 108 :: (d.bytes ++ tail)) (hn : DurNums (getTrack s) d) (ht : DurTail d tail) :
+    mmlBasic s = .ok false
+      (adv (setTrack s ((getTrack s).setDuration (UInt16.ofNat (durVal (getTrack s) d).toNat))) (1 + d.bytes.length + durSkip d tail)) := by
+  have hs1 : Sane (adv s 1) := sane_adv s hs 1 (by rw [hsuf]; simp)
+  have hsuf1 : suffix (adv s 1) = d.bytes ++ tail := by rw [suffix_adv, hsuf]; rfl
+  unfold mmlBasic
+  rw [bind_ok (getTokenC_cons s 108 _ hsuf (by omega))]
+  dispatch 108
+  rw [bind_ok (readDuration_render (adv s 1) hs1 d tail hsuf1 hn ht)]
+  rw [bind_ok (trackOp_ok _ _ _ "" rfl), run_pure]
+  finish
+
+theorem octave_span (s : MmlState) (hs : Sane s) (n : Num) (tail : List Nat)
+    (hsuf : suffix s = 111 :: (n.bytes ++ tail)) (hr : NumRange n) (hend : NumEnd (numBase n) tail) (hlo : -2147483647 ≤ n.v) :
+    mmlBasic s = .ok false (adv (setTrack s ((getTrack s).setOctave (n.v + -1))) (1 + n.bytes.length)) := by
+  have hs1 : Sane (adv s 1) := sane_adv s hs 1 (by rw [hsuf]; simp)
+  have hsuf1 : suffix (adv s 1) = n.bytes ++ tail := by rw [suffix_adv, hsuf]; rfl
+  unfold mmlBasic
+  rw [bind_ok (getTokenC_cons s 111 _ hsuf (by omega))]
+  dispatch 111
+  rw [bind_ok (expectParameter_render (adv s 1) hs1 n tail hsuf1 hr hend)]
+  rw [bind_ok (addInt_ok n.v (-1) _ (by unfold inInt32; simp only [Bool.and_eq_true, decide_eq_true_eq]; have := hr.2; omega))]
+  rw [bind_ok (trackOp_ok _ _ _ "" rfl), run_pure]
+  finish
+
+theorem octDown_span (s : MmlState) (hs : Sane s) (tail : List Nat) (hsuf : suffix s = 60 :: tail)
+    (hub : inInt32 ((getTrack s).octave + -1) = true) :
+    mmlBasic s = .ok false (adv (setTrack s ((getTrack s).changeOctave (-1))) 1) := by
+  unfold mmlBasic
+  rw [bind_ok (getTokenC_cons s 60 _ hsuf (by omega))]
+  dispatch 60
+  rw [bind_ok (trackOp_ok _ (.changeOctave (-1)) ((getTrack s).changeOctave (-1)) "" (by
+    simp [Track.applyOp, Track.opUB, hub]))]
+  rw [run_pure]
+  finish
+
+theorem octUp_span (s : MmlState) (hs : Sane s) (tail : List Nat) (hsuf : suffix s = 62 :: tail)
+    (hub : inInt32 ((getTrack s).octave + 1) = true) :
+    mmlBasic s = .ok false (adv (setTrack s ((getTrack s).changeOctave 1)) 1) := by
+  unfold mmlBasic
+  rw [bind_ok (getTokenC_cons s 62 _ hsuf (by omega))]
+  dispatch 62
+  rw [bind_ok (trackOp_ok _ (.changeOctave 1) ((getTrack s).changeOctave 1) "" (by
+    simp [Track.applyOp, Track.opUB, hub]))]
+  rw [run_pure]
+  finish
+
+end Ctrmml.Mml
+
+namespace Ctrmml.Mml
+open Ctrmml.Tables Ctrmml.Lexer Ctrmml.TrackBuilder
+open Ctrmml.MmlMeaning (Num Dur Acc Cmd Simple dotsBytes)
+
+theorem quantize_span (s : MmlState) (hs : Sane s) (n : Num) (tail : List Nat)
+    (hsuf : suffix s = 81 :: (n.bytes ++ tail)) (hr : NumRange n) (hend : NumEnd (numBase n) tail) :
+    mmlBasic s = .ok false
+      (adv (setTrack s ((getTrack s).setQuantize (u16 n.v) (UInt16.ofNat trackSetQuantizeDefaultParts)).1) (1 + n.bytes.length)) := by
+  have hs1 : Sane (adv s 1) := sane_adv s hs 1 (by rw [hsuf]; simp)
+  have hsuf1 : suffix (adv s 1) = n.bytes ++ tail := by rw [suffix_adv, hsuf]; rfl
+  unfold mmlBasic
+  rw [bind_ok (getTokenC_cons s 81 _ hsuf (by omega))]
+  dispatch 81
+  rw [bind_ok (expectParameter_render (adv s 1) hs1 n tail hsuf1 hr hend)]
+  rw [bind_ok (trackOp_ok _ _ ((getTrack s).setQuantize (u16 n.v) (UInt16.ofNat trackSetQuantizeDefaultParts)).1 _ rfl), run_pure]
+  finish
+
+theorem early_span (s : MmlState) (hs : Sane s) (n : Num) (tail : List Nat)
+    (hsuf : suffix s = 113 :: (n.bytes ++ tail)) (hr : NumRange n) (hend : NumEnd (numBase n) tail) :
+    mmlBasic s = .ok false (adv (setTrack s ((getTrack s).setEarlyRelease (u16 n.v))) (1 + n.bytes.length)) := by
+  have hs1 : Sane (adv s 1) := sane_adv s hs 1 (by rw [hsuf]; simp)
+  have hsuf1 : suffix (adv s 1) = n.bytes ++ tail := by rw [suffix_adv, hsuf]; rfl
+  unfold mmlBasic
+  rw [bind_ok (getTokenC_cons s 113 _ hsuf (by omega))]
+  dispatch 113
+  rw [bind_ok (expectParameter_render (adv s 1) hs1 n tail hsuf1 hr hend)]
+  rw [bind_ok (trackOp_ok _ _ _ "" rfl), run_pure]
+  finish
+
+theorem measure_span (s : MmlState) (hs : Sane s) (n : Num) (tail : List Nat)
+    (hsuf : suffix s = 67 :: (n.bytes ++ tail)) (hr : NumRange n) (hend : NumEnd (numBase n) tail) :
+    mmlBasic s = .ok false (adv (setTrack s ((getTrack s).setMeasureLen (u16 n.v))) (1 + n.bytes.length)) := by
+  have hs1 : Sane (adv s 1) := sane_adv s hs 1 (by rw [hsuf]; simp)
+  have hsuf1 : suffix (adv s 1) = n.bytes ++ tail := by rw [suffix_adv, hsuf]; rfl
+  unfold mmlBasic
+  rw [bind_ok (getTokenC_cons s 67 _ hsuf (by omega))]
+  dispatch 67
+  rw [bind_ok (expectParameter_render (adv s 1) hs1 n tail hsuf1 hr hend)]
+  rw [bind_ok (trackOp_ok _ _ _ "" rfl), run_pure]
+  finish
+
+theorem shuffle_span (s : MmlState) (hs : Sane s) (n : Num) (tail : List Nat)
+    (hsuf : suffix s = 115 :: (n.bytes ++ tail)) (hr : NumRange n) (hend : NumEnd (numBase n) tail) :
+    mmlBasic s = .ok false (adv (setTrack s ((getTrack s).setShuffle n.v)) (1 + n.bytes.length)) := by
+  have hs1 : Sane (adv s 1) := sane_adv s hs 1 (by rw [hsuf]; simp)
+  have hsuf1 : suffix (adv s 1) = n.bytes ++ tail := by rw [suffix_adv, hsuf]; rfl
+  unfold mmlBasic
+  rw [bind_ok (getTokenC_cons s 115 _ hsuf (by omega))]
+  dispatch 115
+  unfold expectSigned
+  rw [bind_ok (expectParameter_render (adv s 1) hs1 n tail hsuf1 hr hend)]
+  rw [bind_ok (trackOp_ok _ _ _ "" rfl), run_pure]
+  finish
+
+theorem mmlSlur_ok (s : MmlState) (hok : (getTrack s).addSlur.2 = 0) :
+    mmlSlur s = .ok () (setTrack s (getTrack s).addSlur.1) := by
+  unfold mmlSlur
+  rw [bind_ok (track_run s)]
+  cases h : (getTrack s).addSlur with
+  | mk t r =>
+    have hr : r = 0 := by rw [h] at hok; exact hok
+    subst hr
+    simp only [modifyTrack, run_bind, run_pure, bne_self_eq_false, Bool.false_eq_true, if_false]
+
+theorem slur_span (s : MmlState) (hs : Sane s) (tail : List Nat) (hsuf : suffix s = 38 :: tail)
+    (hok : (getTrack s).addSlur.2 = 0) :
+    mmlBasic s = .ok false (adv (setTrack s (getTrack s).addSlur.1) 1) := by
+  unfold mmlBasic
+  rw [bind_ok (getTokenC_cons s 38 _ hsuf (by omega))]
+  dispatch 38
+  rw [bind_ok (mmlSlur_ok (adv s 1) hok), run_pure]
+  finish
+
+end Ctrmml.Mml
+
+namespace Ctrmml.Mml
+open Ctrmml.Tables Ctrmml.Lexer Ctrmml.TrackBuilder
+open Ctrmml.MmlMeaning (Num Dur Acc Cmd Simple dotsBytes)
+
+/-! ### notes -/
+
+def keysigOf (t : Track) (l : Nat) : Int :=
+  if Track.testBit t.sharpMask l then 1 else if Track.testBit t.flatMask l then -1 else 0
+
+def accSig (t : Track) (l : Nat) : Acc → Int
+  | .none => if !t.inDrumMode then keysigOf t l else 0
+  | .sharp => 1
+  | .flat => -1
+  | .natural => 0
+
+/-- the value `read_note` returns for letter `l` (0..7 = a..h) with accidental `a` -/
+def noteVal (t : Track) (l : Nat) (a : Acc) : Int :=
+  (if !t.inDrumMode then noteValues[l]?.getD 0 else (l : Int)) + accSig t l a
+
+theorem getKeySignature_letter (t : Track) (l : Nat) (hl : l < 8) :
+    t.getKeySignature (97 + (l : Int)) = .ok (keysigOf t l) := by
+  have hidx : Track.noteIndex (97 + (l : Int)) = l := by
+    unfold Track.noteIndex toLower isUpper wrapS8
+    have : ¬ ((65 : Int) ≤ 97 + l ∧ 97 + (l : Int) ≤ 90) := by omega
+    simp only [Bool.and_eq_true, decide_eq_true_eq, this, if_false]
+    omega
+  unfold Track.getKeySignature keysigOf
+  simp only [hidx]
+  have h1 : ¬ ((l : Int) > 7) := by omega
+  have h2 : ¬ ((l : Int) < 0) := by omega
+  simp only [h1, h2, if_false, Int.toNat_natCast]
+  split
+  · rfl
+  · split <;> rfl
+
+theorem schar_ucharOf_letter (l : Nat) (hl : l < 8) : schar (ucharOf (97 + (l : Int))) = 97 + (l : Int) := by
+  have : ucharOf (97 + (l : Int)) = 97 + l := by unfold ucharOf; omega
+  rw [this, schar_small (97 + l) (by omega)]
+  omega
+
+theorem keySigOf_letter (s : MmlState) (l : Nat) (hl : l < 8) :
+    keySigOf (schar (ucharOf (97 + (l : Int)))) s = .ok (keysigOf (getTrack s) l) s := by
+  unfold keySigOf
+  rw [bind_ok (track_run s), schar_ucharOf_letter l hl, getKeySignature_letter _ l hl]
+  rfl
+
+theorem readNote_spec (s : MmlState) (hs : Sane s) (l : Nat) (hl : l < 8) (a : Acc) (rest : List Nat)
+    (hsuf : suffix s = a.bytes ++ rest)
+    (hnext : a = .none → rest.head? ≠ some 43 ∧ rest.head? ≠ some 45 ∧ rest.head? ≠ some 61) :
+    readNote (97 + (l : Int)) s = .ok (noteVal (getTrack s) l a) (adv s a.bytes.length) := by
+  have hw : wrapS8 (97 + (l : Int) - 97) = l := by unfold wrapS8; omega
+  have hm : ((l : Int) % 8).toNat = l := by omega
+  unfold readNote
+  simp only [hw, hm]
+  rw [bind_ok (track_run s)]
+  have e43 : schar 43 = 43 := by decide
+  have e45 : schar 45 = 45 := by decide
+  have e61 : schar 61 = 61 := by decide
+  by_cases hd : (!(getTrack s).inDrumMode) = true
+  · simp only [hd, if_true]
+    rw [bind_ok (keySigOf_letter s l hl), bind_ok (run_pure _ _)]
+    cases a with
+    | sharp =>
+      rw [bind_ok (getC_cons s 43 rest hsuf), e43]
+      simp (config := { decide := true }) only [if_true, if_false]
+      rw [bind_ok (run_pure _ _), run_pure]
+      simp [noteVal, accSig, hd, Acc.bytes]
+    | flat =>
+      rw [bind_ok (getC_cons s 45 rest hsuf), e45]
+      simp (config := { decide := true }) only [if_true, if_false]
+      rw [bind_ok (run_pure _ _), run_pure]
+      simp [noteVal, accSig, hd, Acc.bytes]
+    | natural =>
+      rw [bind_ok (getC_cons s 61 rest hsuf), e61]
+      simp (config := { decide := true }) only [if_true, if_false]
+      rw [bind_ok (run_pure _ _), run_pure]
+      simp [noteVal, accSig, hd, Acc.bytes]
+    | none =>
+      have hsuf' : suffix s = rest := by simpa [Acc.bytes] using hsuf
+      obtain ⟨h43, h45, h61⟩ := hnext rfl
+      obtain ⟨c, hget, hunget, hne, _⟩ := peek_spec s hs
+      rw [bind_ok hget]
+      have c43 : (c == 43) = false := hne 43 (by omega) (by omega) (by rw [hsuf']; exact h43)
+      have c45 : (c == 45) = false := hne 45 (by omega) (by omega) (by rw [hsuf']; exact h45)
+      have c61 : (c == 61) = false := hne 61 (by omega) (by omega) (by rw [hsuf']; exact h61)
+      simp only [c43, c45, c61, Bool.false_eq_true, if_false]
+      rw [bind_ok hunget, bind_ok (run_pure _ _), run_pure]
+      simp [noteVal, accSig, hd, Acc.bytes, adv_zero]
+  · simp only [hd, Bool.false_eq_true, if_false]
+    rw [bind_ok (run_pure _ _)]
+    cases a with
+    | sharp =>
+      rw [bind_ok (getC_cons s 43 rest hsuf), e43]
+      simp (config := { decide := true }) only [if_true, if_false]
+      rw [bind_ok (run_pure _ _), run_pure]
+      simp [noteVal, accSig, hd, Acc.bytes]
+    | flat =>
+      rw [bind_ok (getC_cons s 45 rest hsuf), e45]
+      simp (config := { decide := true }) only [if_true, if_false]
+      rw [bind_ok (run_pure _ _), run_pure]
+      simp [noteVal, accSig, hd, Acc.bytes]
+    | natural =>
+      rw [bind_ok (getC_cons s 61 rest hsuf), e61]
+      simp (config := { decide := true }) only [if_true, if_false]
+      rw [bind_ok (run_pure _ _), run_pure]
+      simp [noteVal, accSig, hd, Acc.bytes]
+    | none =>
+      have hsuf' : suffix s = rest := by simpa [Acc.bytes] using hsuf
+      obtain ⟨h43, h45, h61⟩ := hnext rfl
+      obtain ⟨c, hget, hunget, hne, _⟩ := peek_spec s hs
+      rw [bind_ok hget]
+      have c43 : (c == 43) = false := hne 43 (by omega) (by omega) (by rw [hsuf']; exact h43)
+      have c45 : (c == 45) = false := hne 45 (by omega) (by omega) (by rw [hsuf']; exact h45)
+      have c61 : (c == 61) = false := hne 61 (by omega) (by omega) (by rw [hsuf']; exact h61)
+      simp only [c43, c45, c61, Bool.false_eq_true, if_false]
+      rw [bind_ok hunget, bind_ok (run_pure _ _), run_pure]
+      simp [noteVal, accSig, hd, Acc.bytes, adv_zero]
+
+end Ctrmml.Mml
+
+namespace Ctrmml.Mml
+open Ctrmml.Tables Ctrmml.Lexer Ctrmml.TrackBuilder
+open Ctrmml.MmlMeaning (Num Dur Acc Cmd Simple dotsBytes)
+
+theorem note_span (s : MmlState) (hs : Sane s) (l : Nat) (hl : l < 8) (a : Acc) (d : Dur) (tail : List Nat)
+    (hsuf : suffix s = (97 + l) :: (a.bytes ++ (d.bytes ++ tail)))
+    (hn : DurNums (getTrack s) d) (ht : DurTail d tail)
+    (hacc : a = .none → (d.bytes ++ tail).head? ≠ some 43 ∧ (d.bytes ++ tail).head? ≠ some 45 ∧ (d.bytes ++ tail).head? ≠ some 61)
+    (hub : (getTrack s).opUB (.addNote (noteVal (getTrack s) l a) (UInt16.ofNat (durVal (getTrack s) d).toNat)) = false) :
+    mmlBasic s = .ok false
+      (adv (setTrack s ((getTrack s).addNote (noteVal (getTrack s) l a) (UInt16.ofNat (durVal (getTrack s) d).toNat)))
+        (1 + a.bytes.length + d.bytes.length + durSkip d tail)) := by
+  have hs1 : Sane (adv s 1) := sane_adv s hs 1 (by rw [hsuf]; simp)
+  have hsuf1 : suffix (adv s 1) = a.bytes ++ (d.bytes ++ tail) := by rw [suffix_adv, hsuf]; rfl
+  have hs2 : Sane (adv (adv s 1) a.bytes.length) := sane_adv _ hs1 _ (by rw [hsuf1]; simp)
+  have hsuf2 : suffix (adv (adv s 1) a.bytes.length) = d.bytes ++ tail := suffix_adv_append _ _ _ hsuf1
+  unfold mmlBasic
+  rw [bind_ok (getTokenC_cons s (97 + l) _ hsuf (by omega))]
+  have e : ((97 + l : Nat) : Int) = 97 + (l : Int) := by omega
+  rw [e]
+  have hc : (decide ((97 : Int) ≤ 97 + (l : Int)) && decide (97 + (l : Int) ≤ 104)) = true := by
+    simp only [Bool.and_eq_true, decide_eq_true_eq]; omega
+  simp only [hc, if_true]
+  rw [bind_ok (readNote_spec (adv s 1) hs1 l hl a _ hsuf1 hacc)]
+  rw [bind_ok (readDuration_render _ hs2 d tail hsuf2 hn ht)]
+  simp only [getTrack_adv]
+  rw [bind_ok (trackOp_ok _ (.addNote (noteVal (getTrack s) l a) (UInt16.ofNat (durVal (getTrack s) d).toNat))
+    ((getTrack s).addNote (noteVal (getTrack s) l a) (UInt16.ofNat (durVal (getTrack s) d).toNat)) "" (by
+      show Track.applyOp (getTrack s) _ = _
+      simp [Track.applyOp, hub])), run_pure]
+  finish
+
+end Ctrmml.Mml
